@@ -1,8 +1,13 @@
 #!/bin/sh
-# usage: try_seed.sh <seed-id> <check>...   applies the seeded change to /repo, runs the checks, undoes it
+# usage: try_seed.sh <seed-id> <check>...   applies the seeded change to /repo, runs the checks, undoes it.
+# The evidence files of the unchanged tree are saved and restored (a seeded run must not
+# leave its evidence behind).
 ID=$1; shift
-git -C /repo apply /verif/seeded/$ID/patch.diff || exit 2
-if grep -q "_quoting_c.pyx" /verif/seeded/$ID/patch.diff; then echo "(pyx change: overlay rebuild will pick it up)"; fi
-for c in "$@"; do (cd /verif && ./check $c 2>&1 | tail -2); done
+SAVE=$(mktemp -d /tmp/verif-ev.XXXXXX)
+cp /verif/evidence/*.json $SAVE/ 2>/dev/null
+git -C /repo apply /verif/seeded/$ID/patch.diff || { rm -rf $SAVE; exit 2; }
+for c in "$@"; do (cd /verif && timeout 1800 ./check $c 2>&1 | grep -v "WARNING conda" | tail -2); done
 git -C /repo checkout -- .
 git -C /repo status --short
+cp $SAVE/*.json /verif/evidence/ 2>/dev/null
+rm -rf $SAVE
